@@ -111,3 +111,18 @@ OPS['exceptcols'] = async (js, inm, text) => {
     return 'ok ' + (m[1] ? m[1] : '!');
 };
 OPS['seplitjs'] = async (t) => { const r = rbql.separate_string_literals(dec_str(t)); return enc_str(r[0]) + ' ' + enc_list(r[1]); };
+
+OPS['tablevars'] = async (js, pfx, query, names, norm, width) => {
+    const ns = names === 'N' ? null : dec_list(names.slice(1));
+    const table = width === '~' ? [] : [Array(parseInt(width)).fill('x')];
+    const it = new rbql.TableIterator(table, ns, norm === '1', dec_str(pfx));
+    let d;
+    try { d = await it.get_variables_map(dec_str(query)); } catch (e) {
+        const msg = String(e && e.message);
+        if (msg.indexOf('different lengths') != -1) return 'err width';
+        if (msg.indexOf('Unable to use column name') != -1) return 'err badname';
+        if (is_parsing_error(e)) return 'err notfound';
+        throw e;
+    }
+    return enc_varmap(d);
+};
